@@ -128,3 +128,53 @@ func scribbleValue(v reflect.Value, depth int) {
 		}
 	}
 }
+
+// What a call returns depends on the reply, not on how long the reply took: every operation once with an immediate answer and
+// once (all of them concurrently, each on its own client) with the same answer arriving after 2.3 s.
+func latencyProbe(s *Sink, r *Rand) {
+	type job struct {
+		oc    OpCase
+		sc    Script
+		fast  string
+		slow  string
+		calls string
+	}
+	jobs := []*job{}
+	for w := 0; w < nOps; w++ {
+		id := genID(r)
+		oc := genOp(r, w, id, false)
+		if oc.Resp == "" {
+			continue
+		}
+		reply := genReply(r, oc.Resp, id, 0, nil)
+		jobs = append(jobs, &job{oc: oc, sc: Script{Kind: "datagrams", Datagrams: [][]byte{reply}}})
+	}
+	for _, j := range jobs {
+		cl := newClient(Cfg{})
+		cl.f.script = j.sc
+		j.fast = safeCall(func() string { return j.oc.Run(cl.u) })
+	}
+	done := make(chan struct{}, len(jobs))
+	noLastValue = true // (the aliasing probe's global is not for concurrent use)
+	defer func() { noLastValue = false }()
+	for _, j := range jobs {
+		j := j
+		go func() {
+			defer func() { done <- struct{}{} }()
+			cl := newClient(Cfg{})
+			cl.f.script = j.sc
+			cl.f.delay = 2300 * time.Millisecond
+			j.slow = safeCall(func() string { return j.oc.Run(cl.u) })
+		}()
+	}
+	for range jobs {
+		<-done
+	}
+	for _, j := range jobs {
+		if j.fast != j.slow {
+			s.Fail(map[string]any{"op": j.oc.Name, "opcoq": j.oc.Coq, "script": j.sc.coq(), "immediate": j.fast, "after_2300ms": j.slow},
+				"the same reply gives a different result when it arrives after 2.3 s than when it arrives at once")
+		}
+	}
+	s.Extra["latency_probe_operations"] = len(jobs)
+}
